@@ -1035,6 +1035,7 @@ pub fn c08(rec: &mut Rec, rng: &mut Rng, thorough: bool) {
     }
     c08_server_dropped_after_flush(rec, rng);
     c08_flush_large_answers_that_fit(rec, rng);
+    c08_client_sends_before_it_is_accepted(rec, rng);
     let n = if thorough { 3000 } else { 140 };
     for k in 0..n {
         let mut cfg = Cfg::base("C08");
@@ -1118,6 +1119,64 @@ pub fn c08(rec: &mut Rec, rng: &mut Rng, thorough: bool) {
             rec.oracle_fail("C08", "the epoll descriptor still signals readiness at quiescence after flush", &sim.w.log);
         }
         sim.w.teardown();
+    }
+}
+
+/// A client that SENDS BEFORE the poll that accepts it (connect and write in one go, as every ordinary HTTP client does):
+/// a whole request with a body and `Expect: 100-continue`, a plain one, two pipelined ones. Whenever the server gets
+/// round to reading those bytes, the request is yielded once, the interim response and the application's answer reach
+/// the client after finitely many polls, and the epoll descriptor falls silent afterwards.
+pub fn c08_client_sends_before_it_is_accepted(rec: &mut Rec, rng: &mut Rng) {
+    for form in 0..5 {
+        for others_first in [false, true] {
+            rec.case("sends-before-accepted");
+            rec.nontrivial();
+            let mut sim = Sim::new(rec, Cfg::base("C08"));
+            if others_first {
+                let o = sim.connect(rec);
+                sim.poll(rec);
+                sim.send_next(rec, rng, o);
+            }
+            let c = sim.connect(rec);
+            let mut bytes = vec![];
+            let mut n = 0;
+            let mut add = |bytes: &mut Vec<u8>, expect: bool, body: usize, v: &str| {
+                let t = tag(c, n);
+                n += 1;
+                bytes.extend_from_slice(format!("PUT {} {}\r\n", t, v).as_bytes());
+                if expect {
+                    bytes.extend_from_slice(b"Expect: 100-continue\r\n");
+                }
+                if body > 0 {
+                    bytes.extend_from_slice(format!("Content-Length: {}\r\n", body).as_bytes());
+                }
+                bytes.extend_from_slice(b"\r\n");
+                bytes.extend(std::iter::repeat(b'b').take(body));
+                t
+            };
+            let tags: Vec<String> = match form {
+                0 => vec![add(&mut bytes, true, 5, "HTTP/1.1")],
+                1 => vec![add(&mut bytes, false, 0, "HTTP/1.0")],
+                2 => vec![add(&mut bytes, true, 300, "HTTP/1.0"), add(&mut bytes, false, 0, "HTTP/1.1")],
+                3 => vec![add(&mut bytes, false, 7, "HTTP/1.1"), add(&mut bytes, true, 2, "HTTP/1.1")],
+                _ => vec![add(&mut bytes, true, 1500, "HTTP/1.1")],
+            };
+            sim.w.send(rec, c, &bytes);
+            for t in &tags {
+                sim.plans[c].sent.push(t.clone());
+            }
+            sim.plans[c].next_req = tags.len();
+            for _ in 0..6 {
+                sim.poll(rec);
+            }
+            sim.settle(rec, rng);
+            common_checks(rec, &mut sim, "C08");
+            check_yield_once(rec, &sim);
+            if sim.w.server.is_some() && sim.w.ready() {
+                rec.oracle_fail("C08", "the epoll descriptor still signals readiness at quiescence (client that sent before it was accepted)", &sim.w.log);
+            }
+            sim.w.teardown();
+        }
     }
 }
 
